@@ -9,7 +9,8 @@ def pts(n):
 
 
 def nlist(s):
-    return [] if s in ("-", "") else s.split(",")
+    """list of names (hex); '~' is the empty name, '-' the empty list"""
+    return [] if s in ("-", "") else [("" if x == "~" else x) for x in s.split(",")]
 
 
 def plist(s):
@@ -49,9 +50,31 @@ def dd_ok(t, lo_bound, nv):
     return lo_bound <= v < nv and lo != hi and dd_ok(lo, v + 1, nv) and dd_ok(hi, v + 1, nv)
 
 
+def read_cells(style, text):
+    """independent reader of a rendered table: rule lines dropped, cells split at the style's
+    vertical glyph (or at blanks for the frameless style) and trimmed"""
+    rows = []
+    for line in text.split("\n"):
+        if style == "A":
+            if line.startswith("+"): continue
+            parts = line.split("|")[1:-1]
+        elif style == "M":
+            if line[:1] in "┌├└": continue
+            parts = line.split("│")[1:-1]
+        elif style == "D":
+            parts = line.split("|")[1:-1]
+            if parts and all(set(p.strip()) <= set("-:") and p.strip() for p in parts): continue
+        else:
+            parts = line.split()
+        rows.append([p.strip() for p in parts])
+    return rows
+
+
 def wellformed(kind, struct):
     """representation invariants of C15, checked on the raw structure printed by the harness"""
     try:
+        if kind == "T" and struct == "-:-":
+            return None    # the explicitly empty table read from empty CSV text
         if kind == "T":
             ins, outs = struct.split(":")
             ins = nlist(ins); outs = "" if outs == "-" else outs
@@ -77,7 +100,7 @@ def checked_norm(s):
     return ("ok", s[3:])
 
 
-def compare(impl_payload, model_payload):
+def compare(impl_payload, model_payload, line=""):
     """returns (tierA mismatching keys, tierB failures [(key, text)])"""
     a, b = [], []
     if impl_payload is None:
@@ -98,6 +121,21 @@ def compare(impl_payload, model_payload):
         b.append(("status", "panic where the specification defines a result"))
     if st_i == "err" and st_m == "ok":
         b.append(("status", "error value where the specification defines a result"))
+    if st_i == "ok" and st_m == "err" and line.split()[1:2] in (["csvin"], ["parse"]):
+        b.append(("status", "text accepted although it is outside the language / does not describe a complete unambiguous table"))
+    if "s.round" in M and I.get("round") != M["s.round"]:
+        b.append(("round", "export then import gives %s, expected the table itself %s" % (I.get("round"), M["s.round"])))
+    if "s.text" in M and I.get("text") != M["s.text"]:
+        b.append(("text", "text differs from the documented equivalent form"))
+    if "s.rows" in M and "text" in I:
+        try:
+            text = "" if I["text"] == "-" else bytes.fromhex(I["text"]).decode("utf-8")
+            got = read_cells(M["s.style"], text)
+            want = [[("" if c == "-" else bytes.fromhex(c).decode("utf-8")) for c in r.split(",")] for r in M["s.rows"].split(";")]
+            if got != want:
+                b.append(("rows", "cells read back from the rendering %r differ from header + relation %r" % (got[:3], want[:3])))
+        except Exception as e:
+            b.append(("rows", "rendering unreadable: %r" % (e,)))
     if "s.inputs" in M and "inputs" in I:
         sins, iins = nlist(M["s.inputs"]), nlist(I["inputs"])
         if M.get("s.rel") == "eq" and sins != iins:
@@ -108,7 +146,9 @@ def compare(impl_payload, model_payload):
         if "s.tv" in M and "tv" in I and len(union) <= 16 and "skip" not in (M["s.tv"], I["tv"]):
             itv = "" if I["tv"] == "-" else I["tv"]
             stv = "" if M["s.tv"] == "-" else M["s.tv"]
-            if len(itv) != 2 ** len(iins):
+            if I.get("struct") == "-:-" and itv == "":
+                pass    # the explicitly empty table
+            elif len(itv) != 2 ** len(iins):
                 b.append(("tv", "truth vector of length %d for %d inputs" % (len(itv), len(iins))))
             elif expand(iins, itv, union) != expand(sins, stv, union):
                 b.append(("tv", "function differs from the specified one: %s over %s vs %s over %s" % (I["tv"], I["inputs"], M["s.tv"], M["s.inputs"])))
